@@ -417,3 +417,120 @@ Proof.
   intros mem a. cbn. destruct (Z.ltb_spec mem a); cbn; rewrite ?Z.leb_refl; cbn; try reflexivity.
   rewrite andb_true_r. apply Z.leb_le. lia.
 Qed.
+
+(* ------------------------------------------------------------------------------------------ *)
+(* 7. the compare-and-swap loop ends: a failed swap means another thread moved the phase
+   forward, which can happen only so often *)
+
+(* how far the phase word is below the thread's argument *)
+Definition cs_dist (arg mem : Z) : nat := Z.to_nat (Z.max 0 (arg - mem)).
+
+(* steps the thread still needs at most, counted in its own turns *)
+Definition cs_potential (mem : Z) (t : cs_thread) : nat :=
+  match cs_at t with
+  | CsDone => 0
+  | CsStart => 2 * cs_dist (cs_arg t) mem + 2
+  | CsLoaded v => if Z.ltb v (cs_arg t) then 2 * cs_dist (cs_arg t) v + 1 else 1
+  end.
+
+(* a loaded value is never above the phase word *)
+Definition cs_wf (mem : Z) (ts : list cs_thread) : Prop :=
+  forall t v, In t ts -> cs_at t = CsLoaded v -> v <= mem.
+
+Lemma cs_update_in : forall i t ts x, In x (cs_update i t ts) -> x = t \/ In x ts.
+Proof.
+  induction i as [|i IH]; intros t [|y r] x H; cbn in H; try tauto.
+  - destruct H; [now left|right; now right].
+  - destruct H as [H|H]; [right; now left|]. destruct (IH _ _ _ H); [now left|right; now right].
+Qed.
+
+Lemma cs_update_nth_same : forall i t ts, (i < length ts)%nat -> nth_error (cs_update i t ts) i = Some t.
+Proof. induction i as [|i IH]; intros t [|y r] H; cbn in *; try lia; [reflexivity|apply IH; lia]. Qed.
+
+Lemma cs_update_nth_other : forall i j t ts, i <> j -> nth_error (cs_update i t ts) j = nth_error ts j.
+Proof.
+  induction i as [|i IH]; intros j t [|y r] H; cbn; try reflexivity.
+  - destruct j; [congruence|reflexivity].
+  - destruct j; [reflexivity|]. cbn. apply IH. congruence.
+Qed.
+
+Lemma cs_potential_mono : forall mem mem' t, mem <= mem' -> (cs_potential mem' t <= cs_potential mem t)%nat.
+Proof.
+  intros mem mem' t H. unfold cs_potential, cs_dist. destruct (cs_at t); try lia.
+Qed.
+
+(* the thread's own turn: the phase word does not go down, the thread stays well-formed, and
+   its potential drops (unless it is done) *)
+Lemma cs_own_step : forall mem t, (forall v, cs_at t = CsLoaded v -> v <= mem) ->
+  let '(mem', t') := cs_thread_step true mem t in
+  mem <= mem' /\ (forall v, cs_at t' = CsLoaded v -> v <= mem') /\
+  (cs_at t = CsDone \/ (cs_potential mem' t' < cs_potential mem t)%nat).
+Proof.
+  intros mem t Hwf. unfold cs_thread_step, cs_potential, cs_dist. destruct (cs_at t) as [|v|] eqn:E; cbn.
+  - split; [lia|]. split; [intros v Hv; inversion Hv; lia|]. right.
+    destruct (Z.ltb_spec mem (cs_arg t)); lia.
+  - specialize (Hwf v eq_refl). destruct (Z.ltb_spec v (cs_arg t)).
+    + destruct (Z.eqb_spec mem v); cbn.
+      * split; [lia|]. split; [discriminate|]. right. lia.
+      * split; [lia|]. split; [discriminate|]. right. lia.
+    + cbn. split; [lia|]. split; [discriminate|]. right. lia.
+  - split; [lia|]. split; [intros v Hv; congruence|]. now left.
+Qed.
+
+Lemma cs_cas_terminates_gen : forall sched mem ts i t,
+  cs_wf mem ts -> nth_error ts i = Some t ->
+  (cs_potential mem t <= count_occ Nat.eq_dec sched i)%nat ->
+  exists t', nth_error (snd (cs_final true mem ts sched)) i = Some t' /\ cs_at t' = CsDone /\ cs_arg t' = cs_arg t.
+Proof.
+  induction sched as [|j tl IH]; intros mem ts i t Hwf Hi Hc; cbn [cs_final].
+  - cbn in Hc. exists t. split; [assumption|]. split; [|reflexivity].
+    unfold cs_potential in Hc. destruct (cs_at t); [lia| |reflexivity]. destruct (Z.ltb v (cs_arg t)); lia.
+  - destruct (nth_error ts j) as [tj|] eqn:Ej.
+    + pose proof (cs_own_step mem tj (fun v Hv => Hwf tj v (nth_error_In _ _ Ej) Hv)) as Hs.
+      destruct (cs_thread_step true mem tj) as [mem' tj'] eqn:Est. destruct Hs as (Hm & Hw' & Hp).
+      assert (cs_arg tj' = cs_arg tj) as Harg.
+      { unfold cs_thread_step in Est. destruct (cs_at tj) as [|w|]; try (inversion Est; reflexivity).
+        destruct (Z.ltb w (cs_arg tj)); [destruct (Z.eqb mem w)|]; inversion Est; reflexivity. }
+      assert (cs_wf mem' (cs_update j tj' ts)) as Hwf'.
+      { intros x v Hx Hv. destruct (cs_update_in _ _ _ _ Hx) as [->|Hin]; [auto|].
+        specialize (Hwf x v Hin Hv). lia. }
+      assert (j < length ts)%nat as Hj by (apply nth_error_Some; congruence).
+      destruct (Nat.eq_dec j i) as [->|Hne].
+      * rewrite Hi in Ej. inversion Ej; subst tj.
+        cbn [count_occ] in Hc. destruct (Nat.eq_dec i i); [|congruence].
+        destruct (IH mem' (cs_update i tj' ts) i tj' Hwf' (cs_update_nth_same _ _ _ Hj)) as (t' & H1 & H2 & H3).
+        { destruct Hp as [Hd|Hp]; [|lia].
+          unfold cs_thread_step in Est. rewrite Hd in Est. inversion Est; subst.
+          unfold cs_potential. rewrite Hd. lia. }
+        exists t'. split; [assumption|]. split; [assumption|congruence].
+      * cbn [count_occ] in Hc. destruct (Nat.eq_dec j i); [congruence|].
+        apply (IH mem' (cs_update j tj' ts) i t Hwf').
+        -- rewrite cs_update_nth_other by assumption. assumption.
+        -- pose proof (cs_potential_mono mem mem' t Hm). lia.
+    + cbn [count_occ] in Hc. destruct (Nat.eq_dec j i) as [->|Hne]; [congruence|].
+      now apply IH.
+Qed.
+
+(* every schedule that gives thread i at least 2*(arg_i - phase)+2 turns leaves it finished,
+   whatever the other threads do in between (they can only move the phase forward) *)
+Lemma cs_cas_terminates : forall args mem sched i a,
+  nth_error args i = Some a ->
+  (2 * cs_dist a mem + 2 <= count_occ Nat.eq_dec sched i)%nat ->
+  exists t', nth_error (snd (cs_final true mem (cs_threads args) sched)) i = Some t' /\ cs_at t' = CsDone.
+Proof.
+  intros args mem sched i a Ha Hc.
+  destruct (cs_cas_terminates_gen sched mem (cs_threads args) i {| cs_arg := a; cs_at := CsStart |}) as (t' & H1 & H2 & _).
+  - intros t v Hin Hv. unfold cs_threads in Hin. rewrite in_map_iff in Hin. destruct Hin as (x & <- & _). discriminate.
+  - unfold cs_threads. rewrite nth_error_map, Ha. reflexivity.
+  - exact Hc.
+  - eauto.
+Qed.
+
+(* without the re-load a thread whose swap failed once never finishes, however often it runs *)
+Lemma cs_stale_loop_spins : forall n,
+  nth_error (snd (cs_stale_final 0 (cs_threads [1; 3]) ([0; 1; 1]%nat ++ repeat 0%nat n))) 0%nat
+  = Some {| cs_arg := 1; cs_at := CsLoaded 0 |}.
+Proof.
+  intros n. cbn.
+  induction n as [|n IH]; cbn; [reflexivity|exact IH].
+Qed.
